@@ -150,9 +150,14 @@ func Sign(key *rsa.PrivateKey, payload []byte, scheme int) []byte {
 // ForgeCert makes a signing-profile certificate for key, issued by issuer (nil = self-signed)
 // with issuerKey, valid [nb, na].
 func ForgeCert(key *rsa.PrivateKey, issuer *x509.Certificate, issuerKey *rsa.PrivateKey, nb, na time.Time, serial int64) *x509.Certificate {
+	return ForgeCertAlg(key, issuer, issuerKey, nb, na, serial, x509.SHA256WithRSAPSS)
+}
+
+// ForgeCertAlg is ForgeCert with the algorithm the issuer signs the certificate with.
+func ForgeCertAlg(key *rsa.PrivateKey, issuer *x509.Certificate, issuerKey *rsa.PrivateKey, nb, na time.Time, serial int64, alg x509.SignatureAlgorithm) *x509.Certificate {
 	t := &x509.Certificate{
 		SerialNumber: big.NewInt(serial), Subject: pkix.Name{CommonName: "forged-signer", SerialNumber: fmt.Sprint(serial)},
-		NotBefore: nb, NotAfter: na, KeyUsage: x509.KeyUsageDigitalSignature, SignatureAlgorithm: x509.SHA256WithRSAPSS,
+		NotBefore: nb, NotAfter: na, KeyUsage: x509.KeyUsageDigitalSignature, SignatureAlgorithm: alg,
 		BasicConstraintsValid: true,
 	}
 	parent := issuer
